@@ -25,6 +25,7 @@ Record wcase := mkWCase {
   wc_toks : list (istr * tokinfo);
   wc_chunks : list (istr * nat);
   wc_tmpl : list (N * (istr * option istr));
+  wc_redir : list (istr * istr);                  (* what http.Redirect makes of a stored return URI *)
   wc_insts : list (N * (bool * (istr * istr)));   (* instance: ready, auth endpoint, end-session endpoint *)
   wc_steps : list wstep;
 }.
@@ -39,7 +40,8 @@ Definition env_of (c : wcase) : env :=
   mkEnv (fun s => match lookup s (wc_bytes c) with Some b => b | None => [] end)
         (fun s => match lookup s (wc_toks c) with Some t => t | None => no_token end)
         (fun s => match lookup s (wc_chunks c) with Some n => n | None => 1%nat end)
-        (tmpl_of (wc_tmpl c)).
+        (tmpl_of (wc_tmpl c))
+        (fun s => match lookup s (wc_redir c) with Some t => t | None => s end).
 
 Definition default_capacity : nat := 500.
 
